@@ -766,6 +766,8 @@ func rulePAN1(p *Program) *RuleResult {
 						r.bad(key, "panic in API entry point "+short(fn), p.instrPos(ins), "an entry point panics instead of returning an error")
 					} else if len(callers[fn]) > 0 {
 						r.ok(key, "panic in helper "+short(fn), p.instrPos(ins), fmt.Sprintf("obligation transferred to its %d reachable call site(s)", len(callers[fn])), false)
+					} else if how := pan1AsArgument(p, fn, isLayout); how != "" {
+						r.ok(key, "panic in helper "+short(fn)+" (only handed on as a function value)", p.instrPos(ins), how, true)
 					} else {
 						r.bad(key, "panic in "+short(fn)+" (reached through dynamic dispatch only)", p.instrPos(ins), "panic reachable from the API with no static call site to discharge it at")
 					}
@@ -806,6 +808,98 @@ func rulePAN1(p *Program) *RuleResult {
 	r.floor("functions", 250)
 	r.floor("panic_helper_calls", 4)
 	return r
+}
+
+// pan1AsArgument: the panic-on-error helper fn is never called directly; it is
+// only passed as the j-th argument of calls to an unexported, directly called
+// function H whose j-th parameter is only called.  Every such inner call is
+// then a call of fn: its argument is matched like a direct call's, with H's
+// parameters standing for the outer call's arguments (the layout handed to
+// Time.Format must be one the parser tries).
+func pan1AsArgument(p *Program, fn *ssa.Function, isLayout func(string) bool) string {
+	type use struct {
+		outer *ssa.Call
+		j     int
+	}
+	var uses []use
+	for _, g := range p.RepoFuncs() {
+		for _, b := range g.Blocks {
+			for _, ins := range b.Instrs {
+				var ops [16]*ssa.Value
+				for _, op := range ins.Operands(ops[:0]) {
+					if op == nil || *op != ssa.Value(fn) {
+						continue
+					}
+					c, ok := ins.(*ssa.Call)
+					if !ok || c.Common().Value == ssa.Value(fn) {
+						return "" // called directly somewhere, or used otherwise
+					}
+					j := -1
+					for i, a := range c.Common().Args {
+						if a == ssa.Value(fn) {
+							j = i
+						}
+					}
+					if j < 0 {
+						return ""
+					}
+					uses = append(uses, use{c, j})
+				}
+			}
+		}
+	}
+	if len(uses) == 0 {
+		return ""
+	}
+	n := 0
+	for _, u := range uses {
+		H := u.outer.Common().StaticCallee()
+		if H == nil || !inRepoFn(H) || u.j >= len(H.Params) || len(H.Blocks) == 0 {
+			return ""
+		}
+		target := H
+		if o := H.Origin(); o != nil {
+			target = o
+		}
+		if target.Object() == nil || target.Object().Exported() {
+			return ""
+		}
+		prm := H.Params[u.j]
+		if prm.Referrers() == nil {
+			continue
+		}
+		for _, ref := range *prm.Referrers() {
+			if _, dbg := ref.(*ssa.DebugRef); dbg {
+				continue
+			}
+			inner, ok := ref.(*ssa.Call)
+			if !ok || inner.Common().Value != ssa.Value(prm) || len(inner.Common().Args) != 1 {
+				return ""
+			}
+			// the argument: Time.Format(layout) with the layout a constant or a parameter of H bound to one
+			fc, ok := inner.Common().Args[0].(*ssa.Call)
+			if !ok || fc.Common().StaticCallee() == nil || fc.Common().StaticCallee().RelString(nil) != "(time.Time).Format" || len(fc.Common().Args) != 2 {
+				return ""
+			}
+			lv := fc.Common().Args[1]
+			if lp, ok := lv.(*ssa.Parameter); ok {
+				for i, q := range H.Params {
+					if q == lp && i < len(u.outer.Common().Args) {
+						lv = u.outer.Common().Args[i]
+					}
+				}
+			}
+			l, ok := constString(lv)
+			if !ok || !isLayout(l) {
+				return ""
+			}
+			n++
+		}
+	}
+	if n == 0 {
+		return ""
+	}
+	return fmt.Sprintf("passed only as a function value to helpers that call it on Time.Format(L) with L a layout the parser tries (%d call(s) matched; assumes 0 <= year <= 9999)", n)
 }
 
 func argDescr(args []ssa.Value) string {
@@ -1038,7 +1132,67 @@ func nilGuarded(fn *ssa.Function, v ssa.Value, at ssa.Instruction, succ ...*ssa.
 			return true
 		}
 	}
+	// the test may be made by a validation helper: err := h(…, v, …) where h answers a
+	// non-nil error whenever that argument is nil, and `at` lies where err == nil
+	for _, b := range fn.Blocks {
+		ifi, ok := b.Instrs[len(b.Instrs)-1].(*ssa.If)
+		if !ok {
+			continue
+		}
+		bo, ok := ifi.Cond.(*ssa.BinOp)
+		if !ok || (bo.Op != token.EQL && bo.Op != token.NEQ) {
+			continue
+		}
+		c, ok := bo.Y.(*ssa.Const)
+		if !ok || !c.IsNil() {
+			continue
+		}
+		call, ok := bo.X.(*ssa.Call)
+		if !ok || !isErrorType(call.Type()) {
+			continue
+		}
+		h := call.Common().StaticCallee()
+		if h == nil || !inRepoFn(h) || len(h.Blocks) == 0 {
+			continue
+		}
+		okEdge := 1 // err != nil: the false edge is the accepted one
+		if bo.Op == token.EQL {
+			okEdge = 0
+		}
+		for i, a := range call.Common().Args {
+			if sameAccess(stripIface(a), stripIface(v)) && rejectsNil(h, i) && domOrOnEdge(b, okEdge, at, succ) {
+				return true
+			}
+		}
+	}
 	return false
+}
+
+var rejectsNilMemo = map[string]bool{}
+
+// rejectsNil: h returns a non-nil error on every path when its i-th argument is nil.
+func rejectsNil(h *ssa.Function, i int) bool {
+	key := fmt.Sprintf("%s#%d", fnKey(h), i)
+	if v, ok := rejectsNilMemo[key]; ok {
+		return v
+	}
+	out := false
+	if i < len(h.Params) && isNilable(h.Params[i].Type()) {
+		args := make([]aval, len(h.Params))
+		for k := range args {
+			args[k] = top
+		}
+		args[i] = aval{k: kNil}
+		res := newAnalyzer().analyze(h, args)
+		out = !res.nonconverged && len(res.rets) > 0
+		for _, ri := range res.rets {
+			if last := ri.vals[len(ri.vals)-1]; last.k != kNonNil {
+				out = false
+			}
+		}
+	}
+	rejectsNilMemo[key] = out
+	return out
 }
 
 func stripIface(v ssa.Value) ssa.Value {
